@@ -85,3 +85,29 @@ Proof.
     apply Forall_nil.
   - split; [vm_compute; reflexivity|]. split; vm_compute; reflexivity.
 Qed.
+
+(* ------------------------------------------------------------------------------------------
+   Tie to the source (C19/Source.v): every integer Write* / Read* / Peek* method of qnet.Buffer
+   is regenerated from qnet/buffer.go by tools/gofunc on every run (Generated/QBuffer.v),
+   together with encoding/binary's littleEndian.PutUintN / UintN from the standard library's
+   source; the embedded bytes.Buffer is the list of its unread bytes (an intrinsic of the
+   translator).  At word size 8 the translated methods ARE the model: [go_write], [go_read],
+   [go_peek] pick the method of a kind (KF32 / KF64: the method of the bit pattern - the float
+   methods themselves convert with math.Float32bits etc. and are outside the subset).  If a
+   width, the byte order, a conversion or the empty-buffer behaviour changes in the source,
+   these obligations are re-checked. *)
+From FV Require Import Generated.QBuffer Lib.GoSem Lib.LE C19.Source.
+
+Theorem c19_src_write : forall k v b, wf 8 k v -> go_write k b v = Lib.GoSem.Ok (write 8 k v b).
+Proof. exact src_write. Qed.
+Print Assumptions c19_src_write.
+
+Theorem c19_src_read : forall k b, Forall is_byte b ->
+  go_read k b = match read 8 k b with (None, _) => Lib.GoSem.Panic | (Some v, b') => Lib.GoSem.Ok (v, b') end.
+Proof. exact src_read. Qed.
+Print Assumptions c19_src_read.
+
+Theorem c19_src_peek : forall k b, Forall is_byte b ->
+  go_peek k b = match peek 8 k b with None => Lib.GoSem.Panic | Some v => Lib.GoSem.Ok v end.
+Proof. exact src_peek. Qed.
+Print Assumptions c19_src_peek.
